@@ -104,3 +104,35 @@ reg(
     "collected at once; the free-running 16-process clause of the quantifier is sampling and not decided; known finding "
     "D5:removes-database-in-use is listed in known_findings.json.",
 )
+
+reg(
+    "C03",
+    "E4-enum",
+    "exploration",
+    "bounded-exhaustive enumeration of typed expression trees x 3 parenthesisations, value oracle against a reference evaluator",
+    "Every well-typed Real/Boolean expression tree with <= 2 operator nodes over the full alphabet (+ - * / ^ and "
+    "element-wise forms, unary +/-, six relations, not/and/or, if, sin/max) and <= 3 over the core alphabet (quick; 3 / 4 "
+    "thorough) is printed with minimal (Modelica grammar), full and doubled parentheses, parsed by the shipped parser, "
+    "and pymoca's tree must evaluate to the reference value of the source tree on a 16-point grid (ties included). "
+    "The run measures how many trees are grouping-sensitive (a rotation of the unparenthesised text changes the value). "
+    "Number / string / Boolean literal spellings are compared by value and Python type.",
+    "Value-based (not shape-based) comparison on a finite grid; only valid Modelica is generated; string escapes are "
+    "outside the alphabet; a parser regenerated from Modelica.g4 is deliberately not a subject (a grammar edit that "
+    "is not regenerated does not change behaviour).",
+)
+
+reg(
+    "C11",
+    "E4-enum",
+    "exploration",
+    "bounded-exhaustive model families, residual functions evaluated on a grid against a reference evaluator",
+    "Complete families of single-class models -- all scalar expression trees with <= 2 (quick) / 3 (thorough) operators "
+    "as right-hand sides, array equations, every valid subscript and slice of small 1-D/2-D arrays on either side, "
+    "for-equations (plain, shifted, sub-range, parameter bound, der), if-equations with elseif, initial equations, der "
+    "as independent input, functions with <= 2 / 3 statements (assignment, if, for; protected temporaries; several "
+    "outputs) -- are generated and dae_residual_function / initial_residual_function are compared per top-level equation "
+    "with lhs - rhs under the reference semantics (Booleans 0/1, and = product, or = sum, 1-based inclusive indexing) "
+    "on 4 / 8 grid points including a tie point.",
+    "Finite grid; entries inside one top-level equation compared as a multiset; array constructors with variable "
+    "elements and nested literal matrices in equations are outside the alphabet (not in the statement's list).",
+)
